@@ -70,9 +70,11 @@ def make_events(f, idx, ns, quick, seed, budget, only=None):
             rems = [""]
             if t["has_value_child"]:
                 rems += ["/5", "/Abc def", "/3 m-per-s^2", "/Cafe\u0301 5 \u212b",          # not in Unicode normal form C
-                         "/" + t["name"], "/" + t["name"].lower() + "/x"]                  # a value that spells the tag's own name
+                         "/" + t["name"], "/" + t["name"].lower() + "/x",                  # a value that spells the tag's own name
+                         "/Stra\u00dfe \ufb01n \u0130x",          # letters whose case-folded form is LONGER (ss, fi, i + dot)
+                         "/12:30/late", "/See http://example.org/p"]      # a colon in the value, a slash after it (no namespace)
             else:
-                rems += ["/Extx", "/Extx/Exty", "/" + names[(n * 7 + fi) % len(names)], "/Re\u0301sume\u0301-\u2126"]
+                rems += ["/Extx", "/Extx/Exty", "/" + names[(n * 7 + fi) % len(names)], "/Re\u0301sume\u0301-\u2126", "/Gr\u00f6\u00dfe-\ufb01x"]
             for ri, rem in enumerate(rems):
                 for ci in range(4):
                     n += 1
